@@ -43,6 +43,17 @@ func intHeavyTables(r *RNG, n int) []*hTable {
 			}
 			ts = append(ts, v)
 		}
+		// the same table NAME in another schema (sharded / per-tenant schemas): its own id, the same column count,
+		// other column names and the opposite signedness - only the (database, table) pair identifies a table
+		if r.Chance(1, 3) {
+			v := &hTable{id: t.id + 2, db: t.db + "x", name: t.name}
+			for k, c := range t.cols {
+				c.name = fmt.Sprintf("o%d_%s", k, randName(r, 2))
+				c.unsigned = !c.unsigned && c.typ != 15
+				v.cols = append(v.cols, c)
+			}
+			ts = append(ts, v)
+		}
 	}
 	return ts
 }
